@@ -91,8 +91,29 @@ def leaf_into_copies(rng, enc):
              "U 2 0 1", "U 3 1 0", "X 4 0 1", "%s 5 2" % rng.choice(["UL", "UR"])]     # no UnionDisjointStates: the state sets overlap and the rules differ (outside its precondition)
     if rng.random() < 0.4: steps.insert(2, "C 6 1")
     return "%s %d SALT %d ; %s" % (enc, len(steps), rng.randrange(12), " ; ".join(steps))
+def shared_finals(rng, enc):
+    """copies of one base automaton (sharing its transition table) that get DIFFERENT final states afterwards; the base contains duplicated
+    states (q and q+5 carry the same rules), so that trees are accepted by both copies through different states: union / intersection of
+    the copies must be computed on the languages, not on the sets of final states"""
+    half = gen.rand_ta(rng, rng.randint(1, 3), rng.randint(2, 6), sigma=SIG, pfinal=0.0, leafbias=0.45)
+    st = sorted(half.states()) or [0]
+    rules = list(half.rules)
+    for (f, p, cs) in half.rules:
+        rules.append((f, p + 5, tuple((c + 5) if rng.random() < 0.7 else c for c in cs)))
+    base = gen.TA([q for q in st if rng.random() < 0.15], rules)
+    def fin(shift):
+        return gen.TA([(q + 5 if (shift and rng.random() < 0.8) else q) for q in st if rng.random() < 0.5] or [st[0] + (5 if shift else 0)], [])
+    f1, f2 = fin(False), fin(True)
+    if rng.random() < 0.3: f2 = gen.TA([q for q in f1.finals if rng.random() < 0.6] + [rng.choice(st) + 5], [])
+    steps = ["L 0 " + base.fmt(), "C 1 0", "C 2 0", "LA 1 " + f1.fmt(), "LA 2 " + f2.fmt(), "X 3 1 2", "X 4 2 1", "U 5 1 2",
+             "%s 6 3" % rng.choice(["UL", "UR"])]
+    if rng.random() < 0.4: steps.append("UD 7 1 2")
+    if rng.random() < 0.4: steps += ["U 8 0 1", "X 9 8 2"]
+    return "%s %d SALT %d ; %s" % (enc, len(steps), rng.randrange(12), " ; ".join(steps))
 def cases(rng, tier):
     cs = [(l, "corpus") for l in CORPUS]
+    for enc in ("bu", "td"):
+        for _ in range(150 if tier == "quick" else 2500): cs.append((shared_finals(rng, enc), "targeted_shared_finals"))
     for enc in ("bu", "td"):
         for _ in range(200 if tier == "quick" else 2500): cs.append((leaf_into_copies(rng, enc), "targeted_leaf_into_copies"))
     nt, nr = (250, 500) if tier == "quick" else (2000, 5000)
